@@ -104,8 +104,8 @@ class BoundedWriter {
   }
 
   template <typename HandleType>
-  constexpr Status<HandleType> PushHandle(const HandleType& handle) {
-    return writer_->PushHandle(handle);
+  Status<HandleReference> PushHandle(const HandleType& handle) {
+    return writer_->template PushHandle<HandleType>(handle);
   }
 
   constexpr std::size_t size() const { return index_; }
